@@ -187,7 +187,8 @@ pub fn glued_line_comments(input: &str, output: &str) -> (Vec<String>, String) {
             while let Some(off) = repaired[from..].find(&text) {
                 let at = from + off;
                 let before = repaired[..at].chars().next_back();
-                if before.is_some_and(|c| !c.is_whitespace()) {
+                // (behind a character that can continue a name: `-` is an identifier character)
+                if before.is_some_and(|c| c.is_alphanumeric() || matches!(c, '_' | '\'' | '-')) {
                     glued.push(text.clone());
                     repaired.insert(at, ' ');
                     from = at + 1 + text.len();
